@@ -801,16 +801,16 @@ func c14Registry(c *Ctx, p *Prog) {
 		if !ok {
 			return
 		}
-		k := valName(mu.Key)
-		if strings.HasSuffix(k, ".Name") {
-			byName = true
-		}
-		if strings.Contains(k, "Aliases") || strings.Contains(k, "#") || strings.Contains(k, "[") {
-			byAlias = true
-		}
-		if ex, ok := mu.Key.(*ssa.Extract); ok {
-			_ = ex
-			byAlias = true
+		// the key is the entry's Name, an element of its Aliases, or an element of a local list put
+		// together from those (names := append(append(nil, t.Name), t.Aliases...)) — as they are,
+		// not transformed
+		for src := range registryKeySources(mu.Key, 0, map[ssa.Value]bool{}) {
+			switch src {
+			case "Name":
+				byName = true
+			case "Aliases":
+				byAlias = true
+			}
 		}
 	})
 	c.Check(byName, "C14-R6", "AddTerminfo:registers-name", p.pos(add.Pos()), "entry stored under its Name")
@@ -1016,4 +1016,75 @@ func nothingPendingEdge(cond ssa.Value, ind map[ssa.Value]bool) (int, bool) {
 		}
 	}
 	return 0, false
+}
+
+// registryKeySources: which fields of the entry a registry key comes from, unchanged: "Name" for a
+// load of t.Name, "Aliases" for an element of t.Aliases; an element of a local slice stands for
+// everything appended to that slice.
+func registryKeySources(v ssa.Value, depth int, seen map[ssa.Value]bool) map[string]bool {
+	out := map[string]bool{}
+	if v == nil || depth > 8 || seen[v] {
+		return out
+	}
+	seen[v] = true
+	add := func(m map[string]bool) {
+		for k := range m {
+			out[k] = true
+		}
+	}
+	if ref, _, ok := loadedField(v); ok && ref.Owner == "terminfo.Terminfo" {
+		if ref.Name == "Name" || ref.Name == "Aliases" {
+			out[ref.Name] = true
+		}
+		return out
+	}
+	switch x := v.(type) {
+	case *ssa.UnOp: // *addr: an element of a slice or array, a local cell
+		if x.Op == token.MUL {
+			switch a := x.X.(type) {
+			case *ssa.IndexAddr:
+				add(registryKeySources(a.X, depth+1, seen))
+			case *ssa.Alloc:
+				for _, r := range referrers(a) {
+					if st, isSt := r.(*ssa.Store); isSt && st.Addr == ssa.Value(a) {
+						add(registryKeySources(st.Val, depth+1, seen))
+					}
+				}
+			}
+		}
+	case *ssa.Index:
+		add(registryKeySources(x.X, depth+1, seen))
+	case *ssa.Extract: // range over a slice: (ok, index, element)
+		if nx, isNext := x.Tuple.(*ssa.Next); isNext {
+			if rg, isRange := nx.Iter.(*ssa.Range); isRange {
+				add(registryKeySources(rg.X, depth+1, seen))
+			}
+		}
+	case *ssa.Phi:
+		for _, e := range x.Edges {
+			add(registryKeySources(e, depth+1, seen))
+		}
+	case *ssa.Slice:
+		if al, isAlloc := x.X.(*ssa.Alloc); isAlloc {
+			// the backing array of variadic arguments: what is stored into its elements
+			for _, r := range referrers(al) {
+				if ia, isIA := r.(*ssa.IndexAddr); isIA {
+					for _, r2 := range referrers(ia) {
+						if st, isSt := r2.(*ssa.Store); isSt {
+							add(registryKeySources(st.Val, depth+1, seen))
+						}
+					}
+				}
+			}
+		} else {
+			add(registryKeySources(x.X, depth+1, seen))
+		}
+	case *ssa.Call:
+		if b, isB := x.Call.Value.(*ssa.Builtin); isB && b.Name() == "append" {
+			for _, a := range x.Call.Args {
+				add(registryKeySources(a, depth+1, seen))
+			}
+		}
+	}
+	return out
 }
